@@ -86,5 +86,4 @@ SPEC = dict(
         "an undo (BootWithoutTry) is only requested for a revision that was known-good before",
         "resealing, boot assets, kernel command line and recovery systems are out of scope",
     ],
-    disabled="under construction",
 )
